@@ -60,6 +60,18 @@ def build(spec):
         base = np.array(list(itertools.product(range(n), repeat=3)), dtype=float)
         frac = (base + 0.5 + 0.2 * np.c_[np.sin(1.0 + 1.7 * k), np.cos(2.0 + 2.3 * k), np.sin(3.0 + 0.7 * k)]) / n
         return xtal.make_crystal(1, "", (2.2 * n, 2.2 * n, 2.2 * n, 90.0, 90.0, 90.0), [("C", "O", "N")[i % 3] for i in k], frac)
+    if spec["kind"] == "atoms5-frame":
+        # the same five atoms in a cell given by lattice VECTORS in another Cartesian frame (axes permuted: exactly three non-zero
+        # entries; turned by exactly 90 degrees; rotated generically) - right-angled cells are where a diagonal shortcut would apply
+        from chmpy.crystal import Crystal, UnitCell
+        from mc.ref.mol import rot
+
+        syms, frac = five_atoms(spec["seed"])
+        c0 = xtal.make_crystal(spec["number"], spec["choice"], tuple(spec["cell"]), syms, frac)
+        M = lattice.cell_matrix(*spec["cell"])
+        Q = {"permuted": np.array([[0.0, 1.0, 0.0], [0.0, 0.0, 1.0], [1.0, 0.0, 0.0]]), "quarter-turn": np.array([[0.0, -1.0, 0.0], [1.0, 0.0, 0.0], [0.0, 0.0, 1.0]]),
+             "rotated": rot((1, 2, 3), 0.7)}[spec["frame"]]
+        return Crystal(UnitCell(M @ Q.T), c0.space_group, c0.asymmetric_unit)
     if spec["kind"] == "monatomic":
         # molecules that are single atoms (rare gases, metals, ions): the asymmetric unit given in the spec, nothing bonded
         return xtal.make_crystal(spec["number"], spec["choice"], tuple(spec["cell"]), list(spec["symbols"]), np.array(spec["frac"], dtype=float))
@@ -397,6 +409,11 @@ def run(ctx):
     specs.append({"kind": "grid", "n": 12, "radii": [12.0, 20.0, 30.0], "queries": ["point"], "label": "grid:12^3"})
     specs.append({"kind": "atoms5", "number": 148, "choice": "R", "cell": list(lattice.compatible_cells(148, "R")[1]), "seed": seed, "radii": [35.0],
                   "queries": ["point"], "label": "atoms5:148:R:long-radius"})
+    # (1d) special values: right-angled (and, for comparison, oblique) cells given by lattice vectors in permuted / quarter-turned / rotated frames
+    for cell in ((3.0, 9.0, 30.0, 90.0, 90.0, 90.0), (5.0, 5.0, 5.0, 90.0, 90.0, 90.0), (7.0, 8.0, 9.0, 81.0, 97.0, 104.0)):
+        for frame in ("permuted", "quarter-turn", "rotated"):
+            specs.append({"kind": "atoms5-frame", "number": 1, "choice": "", "cell": list(cell), "seed": seed, "frame": frame, "radii": [3.8, 12.0],
+                          "queries": ["point", "atomic"], "label": "atoms5-frame:%s:%s" % (frame, cell[3:])})
     # (1c) degenerate sizes: crystals whose molecules are single atoms (fcc argon: one site, 4 atoms per cell; a one-atom P1 cell; an
     # inversion-centre site next to a general one), every query kind, radii beyond the shortest lattice translation
     specs.append({"kind": "monatomic", "number": 225, "choice": "", "cell": [5.31, 5.31, 5.31, 90.0, 90.0, 90.0], "symbols": ["Ar"], "frac": [[0.0, 0.0, 0.0]],
